@@ -4,7 +4,7 @@
 import RattrModel.ResultsProject
 import RattrProofs.Lemmas.ResultsLeaf
 
-namespace Rattr.Project
+namespace Rattr.ResProject
 open Rattr Rattr.Results Rattr.Resolve
 
 /-! ### `writeBack` touches nothing but the three sets -/
@@ -170,9 +170,9 @@ theorem fnAt_toProg (p : Proj) (k : Key) (f : PFn) (h : (allFns p)[k]? = some f)
   simp only [env_fns, List.getElem?_map, h, Option.map_some, Option.getD_some, List.map_map]
   simp [PFn.skel, Function.comp_def]
 
-end Rattr.Project
+end Rattr.ResProject
 
-namespace Rattr.Project
+namespace Rattr.ResProject
 open Rattr Rattr.Results Rattr.Resolve
 
 /-! ### a resolved target is always an entry of one of the project's FileIrs -/
@@ -275,4 +275,4 @@ theorem findCallTargetE_lt {e : Env} {t : CallTarget} {k : Key} (h : findCallTar
     · cases h
     · cases h
 
-end Rattr.Project
+end Rattr.ResProject
